@@ -242,6 +242,82 @@ def text_blocks(base, path, n_atoms, prec, has_box):
     return out
 
 
+def record_stream(ctx, md, scratch, viol, reqs, meta):
+    """Whole records against the Lean rendering (Model/TextRecords.lean): the ATOM lines of .pdb files and the atom lines of .gro files for
+    topologies with names of every length, names that begin with a digit, two-letter elements, residue numbers around the field limits,
+    long segment ids, given or missing serial numbers and B-factors."""
+    rng = ctx.rng
+    hx = lambda s_: s_.encode().hex() if s_ else "-"
+    ATOMS = [("CA", "C"), ("N", "N"), ("HB1", "H"), ("1HB", "H"), ("HG11", "H"), ("FE", "Fe"), ("CL", "Cl"), ("O1P", "O"), ("HD11X", "H"), ("C", "C"), ("NA", "Na"), ("MW", "VS"), ("OXT", "O")]
+    for k in range(ctx.n(6, 40)):
+        top = md.Topology()
+        n_ch = rng.choice([1, 1, 2])
+        rows = []
+        given_serials = n_ch == 1 and rng.random() < 0.5
+        sr = rng.choice([1, 7, 99990])
+        for ci in range(n_ch):
+            ch = top.add_chain(rng.choice([None, None, "X", "Q"]))
+            for ri in range(rng.randrange(1, 4)):
+                rname = rng.choice(["ALA", "HOH", "LIGX", "NA", "G"])
+                rseq = rng.choice([1, 42, 9999, 10000, 12345, -5, -999, -1000, 100000, 123456])
+                seg = rng.choice(["", "", "SEGA", "TOOLONG", "B"])
+                r = top.add_residue(rname, ch, rseq, seg)
+                for ai in range(rng.randrange(1, 4)):
+                    an, el = rng.choice(ATOMS)
+                    a = top.add_atom(an, md.element.virtual if el == "VS" else md.element.get_by_symbol(el), r, serial=sr if given_serials else None)
+                    rows.append(dict(name=an, sym=el, resn=rname, rseq=rseq, seg=seg, chain_obj=ch, chain_index=ci, serial=sr if given_serials else None))
+                    sr += rng.choice([1, 1, 3])
+        na = top.n_atoms
+        xyz = np.array([[[rng.choice([1, -1]) * rng.choice([0.0125, 1.2345, 12.5, 99.9995, 123.4567]) for _ in range(3)] for _ in range(na)]], dtype=np.float32)
+        bf = np.array([rng.choice([0.0, 1.5, 25.25, 99.99, -9.99]) for _ in range(na)]) if rng.random() < 0.5 else None
+        t = md.Trajectory(xyz, top)
+        ctx.case(None, ("records", k)); ctx.count("topologies written as whole records")
+        # ---- pdb
+        p = os.path.join(scratch, "rec.pdb")
+        try:
+            t.save(p, bfactors=bf) if bf is not None else t.save(p)
+            lines = [l for l in open(p).read().split("\n") if l.startswith("ATOM")]
+        except Exception as e:  # noqa: BLE001
+            viol("records|pdb|raises", "saving a .pdb raised %s: %s" % (type(e).__name__, str(e)[:100]), dict(case=k))
+            lines = None
+        if lines is not None:
+            if len(lines) != na:
+                viol("native-layout|records|pdb", "the .pdb file holds %d ATOM records for %d atoms" % (len(lines), na), dict(case=k))
+            else:
+                use_serials = given_serials and all(0 <= r_["serial"] < 100000 for r_ in rows)
+                # the file lists the atoms chain by chain, residue by residue: here that is the index order
+                num = 1
+                last_chain = None
+                for i, (r_, line) in enumerate(zip(rows, lines)):
+                    if last_chain is not None and r_["chain_index"] != last_chain:
+                        num += 1            # the TER record of the chain before took a number
+                    last_chain = r_["chain_index"]
+                    serial = r_["serial"] if use_serials else num
+                    cid = r_["chain_obj"].chain_id
+                    chain = cid[0:1] if cid else "ABCDEFGHIJKLMNOPQRSTUVWXYZ"[r_["chain_index"] % 26]
+                    sym = "" if r_["sym"] == "VS" else r_["sym"]
+                    sym_for_line = md.element.virtual.symbol if r_["sym"] == "VS" else r_["sym"]
+                    reqs.append("txt pdbline %d %s %s %s %s %d %s %s %s %s %s" % (serial, hx(r_["name"]), hx(sym_for_line), hx(r_["resn"]), hx(chain), r_["rseq"],
+                                                                                 rat(float(xyz[0, i, 0]) * 10), rat(float(xyz[0, i, 1]) * 10), rat(float(xyz[0, i, 2]) * 10),
+                                                                                 rat(float(bf[i]) if bf is not None else 0.0), hx(r_["seg"])))
+                    meta.append(("recline", k, "pdb", (line, i), dict(case=k, atom=i)))
+                    num += 1
+        # ---- gro
+        prec = rng.choice([1, 3, 5])
+        p = os.path.join(scratch, "rec.gro")
+        try:
+            t.save(p, precision=prec)
+            glines = open(p).read().split("\n")[2:2 + na]
+        except Exception as e:  # noqa: BLE001
+            viol("records|gro|raises", "saving a .gro raised %s: %s" % (type(e).__name__, str(e)[:100]), dict(case=k))
+            glines = None
+        if glines is not None:
+            for i, (r_, line) in enumerate(zip(rows, glines)):
+                serial = r_["serial"] if r_["serial"] is not None else i
+                reqs.append("txt groline %d %d %s %s %d %s %s %s" % (prec, r_["rseq"], hx(r_["resn"]), hx(r_["name"]), serial, rat(float(xyz[0, i, 0])), rat(float(xyz[0, i, 1])), rat(float(xyz[0, i, 2]))))
+                meta.append(("recline", k, "gro", (line, i), dict(case=k, atom=i)))
+
+
 def overflow_stream(ctx, md, scratch, viol):
     """Field limits: coordinates around the widest value an eight-column field holds (-999.999 / 9999.999 angstrom).  The model says which
     values fit (`Fits 8 3`, theorem c01_fits_iff); mdcrd must refuse exactly the others (c01_mdcrd_overflow_detected), pdb degrades the
@@ -551,6 +627,7 @@ def run(ctx):
             except Exception as e:  # noqa: BLE001
                 viol("resSeq|beyond-field|" + ext_, "a .%s file written for residue numbers up to 1234567 cannot be read back: %s: %s" % (ext_, type(e).__name__, str(e)[:120]), dict(ext=ext_))
         overflow_stream(ctx, md, scratch, viol)
+        record_stream(ctx, md, scratch, viol, reqs, meta)
         model = ctx.driver.query(reqs) if ctx.driver_ok and reqs else [None] * len(reqs)
         for (what, k, ext, data, rp), m in zip(meta, model):
             if m is None:
@@ -588,6 +665,16 @@ def run(ctx):
                     if mx != px or fq(cs_) != pc:
                         viol("native-layout|dcd|readers-disagree", "frame %d of the .dcd file: the byte-level model and the independent Python reader extract different numbers" % f, rp)
                         break
+                continue
+            if what == "recline":
+                line, i_ = data
+                ctx.count("whole records compared byte for byte with the Lean rendering")
+                if not m.startswith("L "):
+                    ctx.broke("correspondence:record|" + ext, "case %s atom %d: the model does not render the record mdtraj wrote (%s): %r" % (rp.get("case"), i_, m[:20], line))
+                elif m[2:].replace("_", " ") != line:
+                    a_, b_ = m[2:].replace("_", " "), line
+                    j_ = next((q for q in range(min(len(a_), len(b_))) if a_[q] != b_[q]), min(len(a_), len(b_)))
+                    ctx.broke("correspondence:record|" + ext, "case %s atom %d: the .%s file holds %r, the model renders %r (first difference at column %d)" % (rp.get("case"), i_, ext, b_, a_, j_ + 1))
                 continue
             if what == "xtcbytes":
                 tm_, bx_, xy_, na_ = data
